@@ -826,6 +826,18 @@ class Run08(object):
                     self.bad('failed-dump-changed-archived-entry', 'after a dump()/sync() with one un-encodable cached value, '
                              'archived key %r holds %s' % (k, _s(real[k])))
                     return
+            if raised is None:
+                # a dump()/sync() that *returned* has copied the cache to the archive: nothing it was asked to write
+                # may be silently missing
+                self.note('c08_unencodable_dumps_that_returned')
+                for k, v in M.items():
+                    if k not in real or not same_value(real[k], v):
+                        self.bad('dump-returned-without-writing', 'dump()/sync() with one un-encodable cached value (%s) '
+                                 'returned normally, but cached key %r %s' % (kind, k, 'is not in the archive'
+                                 if k not in real else 'is archived as %s' % _s(real[k])))
+                        return
+            else:
+                self.note('c08_unencodable_dumps_that_raised')
             cur.clear(); cur.update(real)       # (a directory archive may have taken some of the keys before failing)
             if op[1] and raised is None:
                 M.update(cur)
